@@ -4,7 +4,7 @@
 //! Rust types defined in the parent module. Uses byte-based parsing to avoid UTF-8 overhead.
 
 use winnow::{
-    ascii::multispace0,
+    ascii::{multispace0, multispace1},
     combinator::{alt, separated},
     error::{ErrMode, InputError, ParserError},
     token::{literal, take_while},
@@ -325,7 +325,7 @@ fn method_def<'a>(input: &mut &'a [u8]) -> ModalResult<Method<'a>, InputError<&'
     let comments = parse_preceding_comments(input)?;
 
     literal("method").parse_next(input)?;
-    take_while(1.., |c: u8| c.is_ascii_whitespace()).parse_next(input)?;
+    multispace1.parse_next(input)?;
     let name = type_name(input)?;
     ws(input)?;
     let input_params = parameter_list(input)?;
@@ -347,7 +347,7 @@ fn error_def<'a>(input: &mut &'a [u8]) -> ModalResult<Error<'a>, InputError<&'a 
     let comments = parse_preceding_comments(input)?;
 
     literal("error").parse_next(input)?;
-    take_while(1.., |c: u8| c.is_ascii_whitespace()).parse_next(input)?;
+    multispace1.parse_next(input)?;
     let name = type_name(input)?;
     ws(input)?;
     let params = parameter_list(input)?;
@@ -360,7 +360,7 @@ fn type_def<'a>(input: &mut &'a [u8]) -> ModalResult<CustomType<'a>, InputError<
     let comments = parse_preceding_comments(input)?;
 
     literal("type").parse_next(input)?;
-    take_while(1.., |c: u8| c.is_ascii_whitespace()).parse_next(input)?;
+    multispace1.parse_next(input)?;
     let name = type_name(input)?;
     ws(input)?;
     literal("(").parse_next(input)?;
@@ -489,7 +489,7 @@ fn interface_def<'a>(input: &mut &'a [u8]) -> ModalResult<Interface<'a>, InputEr
     let comments = parse_preceding_comments(input)?;
 
     literal("interface").parse_next(input)?;
-    take_while(1.., |c: u8| c.is_ascii_whitespace()).parse_next(input)?;
+    multispace1.parse_next(input)?;
     let name = interface_name(input)?;
     whitespace_only(input)?;
 
